@@ -1534,6 +1534,7 @@ def bridge_correspondence(what, r, m):
     for k in ("order", "immFields", "defOrder", "accepts"):
         if ms[k] != rs[k]:
             return f"{what}: bridge {k} differs: model {ms[k]} real {rs[k]}"
+    has_inline = '"inline": true' in json.dumps(rs["decl"])
     for i, (rc, mc) in enumerate(zip(r.get("ctor", []), m.get("ctor", []))):
         rr, mr = rc["res"], mc["res"]
         kw = json.dumps(rc["kw"])[:300]
@@ -1546,6 +1547,10 @@ def bridge_correspondence(what, r, m):
         elif "ok" in rr:
             return f"{what}: constructor {kw}: model raises {mr['err']}, real code accepts"
         elif rr["err"] != mr["err"] and rr["err"] not in mc.get("errs", []):
+            # several invalid members INSIDE an inline StructureReference value: which of them the nested constructor
+            # meets first is the value-level model's (C02's) subject, not the class's
+            if has_inline and {rr["err"], mr["err"]} <= {"TypeError", "ValueError"} and "StructureReference" in (rr.get("msg") or ""):
+                continue
             return f"{what}: constructor {kw}: exception class differs: model {mr['err']} {mc.get('errs')}, real {rr['err']}: {rr.get('msg')}"
         msg = via_correspondence(what, kw, rc.get("via"), mc.get("via"), mc.get("errs", []))
         if msg:
@@ -1592,8 +1597,19 @@ def canon_decl(d):
 def tags(case, impl, model):
     out = ["stream:" + case.get("stream", "?"), "mode:" + case.get("mode", "?"),
            f"guards:{int(case['guards']['consts'])}{int(case['guards']['nontypedpy'])}"]
-    for st, r in zip(case["steps"], impl.get("steps", [])):
+    mo = model or {}
+    msteps = (mo.get("out", mo) or {}).get("steps") or []
+    for k, (st, r) in enumerate(zip(case["steps"], impl.get("steps", []))):
         res = "ok" if "ok" in r else ("skipped" if "skipped" in r else "raises:" + r.get("err", "?"))
+        for c in r.get("ctor") or []:
+            out.append("ctor:" + ("ok" if "ok" in c["res"] else c["res"]["err"]))
+            for e, v in (c.get("via") or {}).items():
+                if e != "ctor":
+                    out.append(f"entry:{e}:" + ("ok" if "ok" in v else ("abstract-refusal" if v.get("abstract") else v["err"])))
+        if r.get("struct") and k < len(msteps) and (msteps[k] or {}).get("struct"):
+            out.append("bridge-wf:" + str(msteps[k]["struct"].get("wf")).lower())
+        for br in (r.get("obs") or {}).get("base_rejects", []) if isinstance(r.get("obs"), dict) else []:
+            out.append("base-rejects")
         if st["op"] == "define":
             nb = len([b for b in st["src"]["bases"] if not b.startswith("Mx")])
             out.append(f"define:{res}")
